@@ -22,7 +22,8 @@ RULE = ("models: all four kinds fitted on every point sequence over {0..3} with 
         "ALL histories of two predict calls over batches of length <= 2; reference = the label "
         "(and cluster) the sample receives when predicted alone on the pristine model; the "
         "prediction-relevant model state (everything but the 'relevant' flags) is hashed after "
-        "every call and must not change. Non-trivial = the batch has >= 2 samples or the call "
+        "every call and must not change; two-dimensional samples with batches in Fortran order / as a "
+        "transposed view; an earlier predict call interrupted at each of its metric calls. Non-trivial = the batch has >= 2 samples or the call "
         "is not the first")
 ASSUMPTIONS = [
     "the 'relevant' flags, which predict is allowed to write and never reads, are excluded from the state hash",
